@@ -3940,7 +3940,12 @@ func (a *Association) sendPayloadData(ctx context.Context, chunks []*chunkPayloa
 			a.lock.Unlock()
 			select {
 			case <-ctx.Done():
-				return ctx.Err()
+				if err := ctx.Err(); err != nil {
+					return err
+				}
+				// The write deadline was moved after it had expired: Done() fired
+				// for the old deadline but there is no error any more. Returning
+				// nil here would report success for data that was never queued.
 			case <-writeNotify:
 			}
 			a.lock.Lock()
